@@ -101,7 +101,8 @@ CtrViol(g2, list, unord) ==
                 \cup {<<k[3], k[2]>> : k \in {x \in DOMAIN o : x[1] \in {"sic", "src"}}}
       bad == {p \in pairs : \/ Get(o, <<"ic", p[1], p[2]>>, 0) # Get(g2.acc, p, 0)
                             \* (C02 speaks of ordered pairs: an unordered destination records the last index, not the count)
-                            \/ (p[2] \notin unord /\ Get(o, <<"sic", p[2], p[1]>>, 0) # Get(g2.acc, p, 0))
+                            \* (nor is there a destination-side record when the destination is the hub's own broker)
+                            \/ (p[2] \notin unord /\ p \notin g2.hub /\ Get(o, <<"sic", p[2], p[1]>>, 0) # Get(g2.acc, p, 0))
                             \/ Get(o, <<"rc", p[1], p[2]>>, 0) # Get(g2.rcp, p, 0)
                             \/ Get(o, <<"src", p[2], p[1]>>, 0) # Get(g2.rcp, p, 0)}
   IN {<<"C02_CountersEqualHistory", [pair |-> p, acc |-> Get(g2.acc, p, 0), rcp |-> Get(g2.rcp, p, 0),
